@@ -5,9 +5,13 @@ clip / closestPointInBox / closestPointOnBox are REGENERATED from the headers (h
 lean/ImathVerif/Gen/C13{Box,Interval,Algo}.lean), validated (TV bitwise at float/double, Lean text at Rat),
 and the theorems of lean/ImathVerif/Props/C13.lean are re-elaborated against them.
 
-H-route: transform / affineTransform (four overloads) are the hand model Model/BoxTransform.lean (which itself
-calls the regenerated isEmpty / isInfinite / extendBy / Vec3*Matrix44); it is tied to the real code by
-harness/corr/c13_corr.cpp `transform` vs lean/Driver/BoxTransform.lean on every case whose arithmetic is exact.
+transform / affineTransform (four overloads = four textual copies of the Arvo loop nest, two of the corner enumeration):
+(a) T-route, second extractor harness/sym/ops_c13t.h -> Gen/C13Transform.lean: each overload regenerated as a whole
+(3,076 paths for each Arvo copy; the projective arm with extendBy / Vec3*Matrix44 as calls of the definitions of the first
+extractor) and PROVED EQUAL to the hand model Model/BoxTransform.lean for every box and matrix (Props/C13Transform.lean);
+(b) the hand model is in addition tied to the real code by harness/corr/c13_corr.cpp `transform` vs
+lean/Driver/BoxTransform.lean on every case whose arithmetic is exact — at float, double AND the mixed element types
+Box<Vec3<float>> x Matrix44<double>, Box<Vec3<double>> x Matrix44<float> (the overloads are `template <class S, class T>`).
 
 Small-scope correspondence with the property's own quantifier (harness/corr/c13_corr.cpp `members`): EVERY
 min/max pair over the integer lattice (incl. inverted) x every point (+ half steps for float types), element
@@ -28,6 +32,14 @@ import os, re
 import lib, troute
 
 MODULE = "ImathVerif.Props.C13"
+MODULE_T = "ImathVerif.Props.C13Transform"
+IMPORTS_T = ["ImathVerif.Gen.C13Transform", "ImathVerif.Model.BoxTransform", "ImathVerif.Lemmas.BoxTransformLemmas"]
+# the four textual copies of the Arvo loop / two of the corner enumeration = the model, all boxes, all matrices
+REQUIRED_T = ["Gen_affineTransform_eq", "Gen_transform_affine_eq", "Gen_transformOut_affine_eq", "Gen_affineTransformOut_eq",
+              "Gen_transform_projective_eq", "Gen_transformOut_projective_eq", "transform_real", "transformOut_real",
+              "real_four_arvo_copies_agree", "real_overloads_same_set", "real_affineTransform_tight", "real_affineTransform_contains",
+              "real_transform_projective_tight", "real_transformOut_projective_eq", "real_affineTransform_empty",
+              "real_affineTransformOut_empty", "real_affineTransform_infinite", "real_affineTransformOut_infinite"]
 DRV = os.path.join(lib.LEAN, ".lake", "build", "bin", "drv_boxt")
 IMPORTS = ["ImathVerif.Gen.C13Box", "ImathVerif.Gen.C13Interval", "ImathVerif.Gen.C13Algo", "ImathVerif.Lemmas.C13Algo",
            "ImathVerif.Lemmas.BoxTransformLemmas"]
@@ -44,6 +56,13 @@ REQUIRED = ["%s_%s" % (s, n) for s in SHAPES for n in PER_SHAPE] + [
     "Box3_generic_isEmpty", "Box3_generic_clip", "Box3_generic_size", "Box3_generic_majorAxis",
     "Box2_generic_extendByPoint", "Box2_generic_extendByBox", "Box2_generic_intersectsPoint", "Box2_generic_intersectsBox",
     "Box2_generic_isEmpty", "Box2_generic_clip",
+    # audit W8: the remaining queries, generic template on extra axes = specialisation
+    "Box3_generic_hasVolume", "Box3_generic_hasVolume_degenerate", "Box2_generic_hasVolume", "Box3_generic_isInfinite", "Box2_generic_isInfinite",
+    "Box3_generic_eq", "Box3_generic_ne", "Box2_generic_eq", "Box2_generic_ne", "Box3_generic_makeEmpty", "Box3_generic_makeInfinite", "Box3_generic_default",
+    "Box2_generic_makeEmpty", "Box2_generic_makeInfinite", "Box2_generic_default", "Box3_generic_center", "Box2_generic_center", "Box2_generic_size",
+    "Box2_generic_majorAxis",
+    # audit W6: integer center() with truncating division (unbounded Int)
+    "Interval_center_int_mem", "Box2_center_int_mem", "Box3_center_int_mem", "Box4_center_int_mem",
     "Box2_clip_mem", "Box3_clip_mem", "Box4_clip_mem", "Box2_clip_fixed", "Box3_clip_fixed", "Box4_clip_fixed",
     "Box2_clip_nearest", "Box3_clip_nearest", "Box4_clip_nearest", "Box3_clip_nearest_euclid",
     "Box2_closestPointInBox", "Box3_closestPointInBox", "Box4_closestPointInBox",
@@ -52,6 +71,10 @@ REQUIRED = ["%s_%s" % (s, n) for s in SHAPES for n in PER_SHAPE] + [
     "affineTransform_contains", "affineTransform_tight", "arvo_eq_eight_corner_loop", "transform_affine_eq_affineTransform",
     "transform_tight", "transform_contains", "affineTransformOut_eq", "affineTransformOut_same_set",
     "transformOut_eq", "four_overloads_agree", "four_overloads_equal", "transformOut_tight",
+    # audit W1 / W3: range-relative projective theorems, containment on the projective path, necessity of w > 0
+    "projective_spec", "transform_not_inverted", "transform_contains_of_pos_w", "transformOut_contains_of_pos_w",
+    "wOf_pos_of_corners", "proj_axis_bounds", "wProj_range", "wPersp_range", "wPersp_pos",
+    "transform_misses_point_when_w_changes_sign",
     "transform_empty", "transformOut_empty", "affineTransform_empty", "affineTransformOut_empty",
     "transform_infinite", "transformOut_infinite", "affineTransform_infinite", "affineTransformOut_infinite"]
 
@@ -62,7 +85,7 @@ for cls in ("box", "interval"):
                                    "-default-contains", "-makeEmpty-contains", "-makeInfinite-misses", "-default-empty",
                                    "-equality", "-intersects:empty-vs-containing", "-intersects:nonempty-boxes",
                                    "-intersects:asymmetric", "-extendBy:not-least")]
-LAW_KEYS += ["box-majorAxis", "box-intersects-point:random", "clip:not-nearest", "clip:not-in-box",
+LAW_KEYS += ["box-majorAxis", "box-intersects-point:random", "box-intersects-point:nan-coordinate", "clip:not-nearest", "clip:not-in-box",
              "closestPointInBox:differs-from-clip", "closestPointOnBox:empty-box-not-identity",
              "closestPointOnBox:not-on-surface", "closestPointOnBox:not-nearest",
              "transform:empty-input-not-empty", "transform:infinite-input-not-infinite",
@@ -75,6 +98,9 @@ LAW_KEYS += ["box-majorAxis", "box-intersects-point:random", "clip:not-nearest",
              "affineTransform-outparam:empty-input", "affineTransform-outparam:infinite-input", "affineTransform-outparam:differs",
              "transform:overloads-differ-bitwise:affine-random", "transform:affine-residue"]
 WHAT = {
+    "box-intersects-point:nan-coordinate": "the GENERIC Box<V>::intersects(const V&) (ImathBox.h:258-266, `if (point[i] < min[i] || point[i] > max[i]) return false;`) reports a point "
+                                           "with a NaN coordinate INSIDE the box, while the Vec2 / Vec3 specialisations and Interval (`point.x >= min.x && point.x <= max.x ...`) "
+                                           "report it outside: the template copies do not behave identically, and no point with a NaN coordinate satisfies min <= p <= max",
     "box-intersects:empty-vs-containing": "Box<V>::intersects(const Box&) returns true for an empty (inverted) box against a box covering its min/max corners, "
                                           "although the empty box contains no point (ImathBox.h intersects(box): no isEmpty test)",
     "interval-intersects:empty-vs-containing": "Interval<T>::intersects(const Interval&) returns true for an empty (inverted) interval against one covering its ends",
@@ -88,7 +114,7 @@ WHAT = {
 
 def run_harness(binary, args, timeout=1800):
     rc, out = lib.sh([binary] + [str(a) for a in args], timeout=timeout)
-    sums, fails, counts, resid, tlines = {}, {}, {}, {}, []
+    sums, fails, counts, resid, tlines, evald = {}, {}, {}, {}, [], {}
     for l in out.split("\n"):
         if l.startswith("T "):
             tlines.append(l)
@@ -99,6 +125,10 @@ def run_harness(binary, args, timeout=1800):
         elif l.startswith("FAIL "):
             key, _, det = l[5:].partition(" | ")
             fails.setdefault(key.strip(), []).append(det.strip())
+        elif l.startswith("COUNT-EVAL "):
+            ws = l.split()
+            if len(ws) == 3:
+                evald[ws[1]] = int(ws[2])
         elif l.startswith("COUNT "):
             ws = l.split()
             if len(ws) == 3 and ws[1] in LAW_KEYS:
@@ -108,7 +138,7 @@ def run_harness(binary, args, timeout=1800):
             if m:
                 resid[m.group(1)] = {"worst_error_in_units_of_u_times_sum_abs_terms": float(m.group(2)), "bound": int(m.group(3))}
     done = "DONE fails=" in out
-    return rc == 0 and done, sums, fails, counts, resid, tlines, out
+    return rc == 0 and done, sums, fails, counts, resid, tlines, out, evald
 
 
 def report_laws(chk, mode, cmdline, ok, sums, fails, counts, keys_of_mode):
@@ -134,8 +164,8 @@ def report_laws(chk, mode, cmdline, ok, sums, fails, counts, keys_of_mode):
                   "replay_cmd": cmdline + "   # prints FAIL %s lines" % key}, True)
 
 
-MEMBER_KEYS = [k for k in LAW_KEYS if not k.startswith(("transform", "affineTransform")) and k not in ("box-intersects-point:random", "clip:not-in-box")]
-RANDOM_KEYS = ["box-intersects-point:random", "box-intersects:empty-vs-containing", "box-intersects:nonempty-boxes", "box-intersects:asymmetric",
+MEMBER_KEYS = [k for k in LAW_KEYS if not k.startswith(("transform", "affineTransform")) and k not in ("box-intersects-point:random", "box-intersects-point:nan-coordinate", "clip:not-in-box")]
+RANDOM_KEYS = ["box-intersects-point:random", "box-intersects-point:nan-coordinate", "box-intersects:empty-vs-containing", "box-intersects:nonempty-boxes", "box-intersects:asymmetric",
                "box-isEmpty", "box-hasVolume", "box-extendBy:not-least", "clip:not-in-box", "clip:not-nearest"]
 TRANSFORM_KEYS = [k for k in LAW_KEYS if k.startswith(("transform", "affineTransform"))]
 
@@ -153,21 +183,29 @@ THEOREM_LAWS = [("intersectsPoint", ["-intersects-point"]), ("intersectsBox", ["
 def run(chk):
     chk.trusted = ["Lean 4.33 kernel; axioms propext/Classical.choice/Quot.sound at most",
                    "translator harness/sym (T = Sym path extraction), validated each run by TV (bitwise at float/double) and by evaluating the emitted Lean text at Rat",
-                   "hand model Model/BoxTransform.lean of the four transform overloads (control flow + Arvo loop + corner enumeration; the Box members it calls are the "
-                   "regenerated definitions), tied to the real code by exact correspondence on every arithmetic-exact case",
+                   "hand model Model/BoxTransform.lean of the four transform overloads: no longer trusted on its own — Props/C13Transform.lean proves it equal to the "
+                   "four overloads as regenerated from ImathBoxAlgo.h (Gen/C13Transform.lean, second extractor harness/sym/ops_c13t.h; its *_affine entries overwrite the "
+                   "matrix's last column with the literals (0,0,0,1) and its *_projective entries return the box unchanged when the matrix passes the affine test — both "
+                   "stated in the theorems); the exact correspondence of the model with the real code (4 element-type pairs) is kept as a second, independent tie",
                    "Spec/BoxSpec.lean: a box denotes {p | min <= p <= max on every axis}",
                    "the independent set semantics of harness/corr/c13_corr.cpp (integer arithmetic, brute force over lattice points)"]
     chk.assumptions = ["order-theoretic theorems hold over any linear order (all element types); size over ordered additive groups; center / transforms over an "
                        "ordered field: rounding of float + * / is not modelled (measured: affine transform residue <= 8 u sum|terms|)",
-                       "type bounds: hypotheses tlowest < tmax and (forall x, tlowest <= x <= tmax) — the finite values of the element type; IEEE infinities / NaN lie outside "
-                       "(makeInfinite() does not contain +-inf)",
+                       "INTEGER center() / size(): the theorems are over an ordered field / ordered group; truncation of (max+min)/2 and overflow of max+min, max-min are covered "
+                       "on the small lattice only (translator validation at int/short/int64/uchar/half confirms the same template runs; Interval<short>::center() is validated at the "
+                       "five arithmetic-closed types because C++ promotes short operands to int)",
+                       "type bounds: members: hypotheses tlowest < tmax and (forall x, tlowest <= x <= tmax) — a bounded linear order (the finite values of the element type); IEEE "
+                       "infinities / NaN lie outside (makeInfinite() does not contain +-inf; intersects(p) with a NaN coordinate answers true — outside the LinearOrder model). "
+                       "transforms (ordered field, where no such bound exists): the RANGE-RELATIVE hypothesis that the eight corner images lie within [tlowest, tmax]",
+                       "projective path: 'contains the image of every point of the box' is proved under w > 0 at the eight corners (transform_contains_of_pos_w) and is FALSE when w "
+                       "changes sign on the box (transform_misses_point_when_w_changes_sign, replayed on the real code as a WITNESS line): a limitation of the property's wording, not a defect",
                        "extendBy is least for API-reachable boxes (non-inverted or the canonical empty box); a user-stored inverted min/max pair is treated as data "
                        "(Interval_extendByPoint_inverted_not_least)"]
     chk.rule = ("members: every (min,max) pair over {-1,0,1,2}^D incl. inverted (D=4: {0,1,2}) x every lattice point (+ half steps for float/double; one step beyond for "
                 "int/short), all pairs of boxes, all point sequences to length 3 and point/box sequences to length 2 + sampled mixed length 3 (VERIF_SEED); "
                 "non-trivial = points inside / intersecting pairs / non-empty results / points outside the box. transform: lattice and dyadic matrices (sparse, affine, "
                 "constant-w and general projective) x boxes incl. inverted, makeEmpty, makeInfinite x three old values of `result`; non-trivial = cases compared with the exact 8-corner bound")
-    bins = troute.build_extractors(chk, [dict(name="sym_c13", source="sym/sym_c13.cpp")])
+    bins = troute.build_extractors(chk, [dict(name="sym_c13", source="sym/sym_c13.cpp", half=True), dict(name="sym_c13t", source="sym/sym_c13t.cpp")])
     okc, corr, oc = lib.cxx_build("c13_corr", ["corr/c13_corr.cpp"])
     chk.oblige("build:c13_corr", "build", okc, None if okc else oc[-1500:])
     if not okc:
@@ -181,6 +219,25 @@ def run(chk):
         for d in index:
             if d["name"] in ("Box4.extendByPoint", "Box4.extendByBox", "Box3.closestPointOnBox", "Box3.clip", "Box4.clip", "Box3.intersectsBox"):
                 chk.sample({"entry": d["name"], "paths": d.get("paths")})
+        # audit W5: the members are validated at all seven element types
+        pt = chk.extra.get("tv", {}).get("c13", {}).get("per_type", {})
+        chk.oblige("tv:c13: element types double,float,half,int,short,int64,uchar all evaluated", "coverage",
+                   all(int(pt.get(t, 0)) > 0 for t in ("double", "float", "half", "int", "short", "int64", "uchar")), pt)
+    # second extractor: the four transform / affineTransform overloads as wholes (audit W2)
+    c13_idx = os.path.join(troute.GEN, "index_c13.txt")
+    index_t = []
+    if bins.get("sym_c13t") and bins.get("sym_c13"):
+        index_t, changed_t = troute.regenerate(chk, bins["sym_c13t"], "c13t", idx_deps=[c13_idx])
+        # random boxes are inverted 7 times out of 8 (early return), hence the large n: ~500 of the 512 orders of (a < b) are hit per copy
+        troute.tv(chk, bins["sym_c13t"], "c13t", 100000 if chk.thorough else 20000, idx_deps=[c13_idx])
+        troute.lean_tv(chk, bins["sym_c13t"], "c13t", index_t, n=8 if chk.thorough else 3, idx_deps=[c13_idx])
+        for d in index_t:
+            chk.sample({"entry": d["name"], "paths": d.get("paths")})
+        want = {"BoxAlgo.transform_affine": 3076, "BoxAlgo.transformOut_affine": 3076, "BoxAlgo.affineTransform": 3076, "BoxAlgo.affineTransformOut": 3076,
+                "BoxAlgo.transform_projective": 41, "BoxAlgo.transformOut_projective": 41}
+        got = {d["name"]: int(d.get("paths", 0)) for d in index_t}
+        chk.oblige("extract:c13t: all six whole-overload entries present", "coverage", set(want) <= set(got), sorted(set(want) - set(got)) or None)
+        chk.extra["c13t_paths"] = got
 
     mode_m = ["members", "thorough" if chk.thorough else "quick", chk.seed]
     members = run_harness(corr, mode_m, timeout=3600) if okc else None
@@ -212,15 +269,51 @@ def run(chk):
                                 "replay_cmd": ".build/bin/c13_corr " + " ".join(str(a) for a in cmd)}
         return None
 
-    chk.check_theorems(MODULE, required=REQUIRED, search=search)
+    ok_main, _ = chk.check_theorems(MODULE, required=REQUIRED, search=search)
+
+    def search_t(name):
+        # Gen_*_eq / *_real have no hypotheses: evaluate the statement at Rat with the regenerated overloads and the model
+        try:
+            rep = troute.lean_search(chk, MODULE_T, name, IMPORTS_T, OPENS, trials=160, binary=None)
+        except Exception:
+            rep = None
+        if rep and bins.get("sym_c13t"):
+            # replay on the real code at double: the entry's inputs are (b, m[, r]) — the theorem's leading (tmax, tlowest) are not inputs
+            import re as _re
+            stmt = rep.get("theorem_statement", "")
+            fn = _re.search(r"Gen\.(BoxAlgo\.[A-Za-z_]+)", stmt)
+            fi = rep.get("failing_input", {})
+            nums = [x for k in ("b", "m", "r") if k in fi for x in troute._flat_numbers(fi[k])]
+            if fn:
+                entry = fn.group(1)
+                want = 28 if "Out" in entry else 22
+                rc2, out2 = lib.sh([bins["sym_c13t"], "real", entry] + ["%r" % x for x in nums[:want]] + ["--idx", c13_idx], timeout=120)
+                rep["real_code_at_double"] = (out2.strip().split("\n") or [None])[-1]
+                rep["replay_cmd"] = ".build/bin/sym_c13t real %s %s --idx lean/ImathVerif/Gen/index_c13.txt" % (entry, " ".join("%r" % x for x in nums[:want]))
+            return rep
+        if rep:
+            return rep
+        return search(name)
+
+    # (if Props.C13 itself does not build, every theorem of the importing module is reported unchecked; no per-theorem search then)
+    chk.check_theorems(MODULE_T, required=REQUIRED_T, search=search_t if ok_main else None)
     if chk.thorough:
         chk.leanchecker(MODULE)
+        chk.leanchecker(MODULE_T)
     if not okc:
         return
     rel = os.path.relpath(corr, lib.VERIF)
     report_laws(chk, "members", "%s members %s %d" % (rel, mode_m[1], chk.seed), members[0], members[1], members[2], members[3], MEMBER_KEYS)
     report_laws(chk, "random", "%s random %d %d" % (rel, chk.seed, 2000000 if chk.thorough else 200000), rnd[0], rnd[1], rnd[2], rnd[3], RANDOM_KEYS)
     report_laws(chk, "transform", "%s transform %d %d" % (rel, chk.seed, 40000 if chk.thorough else 4000), trn[0], trn[1], trn[2], trn[3], TRANSFORM_KEYS)
+    # audit W7: a law that is never evaluated cannot fail — every transform law must have been evaluated at least once
+    ev = trn[7]
+    chk.extra.setdefault("harness", {}).setdefault("transform", {})["evaluations_per_law"] = ev
+    for key in TRANSFORM_KEYS + ["transform:image-of-box-point-outside:projective-w>0"]:
+        chk.oblige("law-evaluated:transform:%s" % key, "coverage", ev.get(key, 0) > 0, {"evaluations": ev.get(key, 0)})
+    mixed = {k: v for k, v in trn[1].items() if "xMatrix44<" in k}
+    chk.oblige("corr:transform:mixed-element-types S != T run (float x double, double x float)", "coverage",
+               sum(1 for k in mixed if k.startswith("transform-lattice:")) == 2 and all(v[0] > 0 for v in mixed.values()), sorted(mixed) or None)
     chk.exhaustive = True
     # the inputs that used to be counterexamples (repaired in /repo 955f533, 6dca912), replayed on the real code (informational)
     wit = [l[8:] for res in (members, trn) for l in res[6].split("\n") if l.startswith("WITNESS ")]
@@ -247,6 +340,8 @@ def run(chk):
             ["lines", "compared_exactly", "diffs", "transform(box,m)", "transform(box,m,result)", "affineTransform(box,m)", "affineTransform(box,m,result)",
              "empty_inputs", "infinite_inputs", "affine_path", "projective_path", "only_m03_nonzero", "only_m13_nonzero", "only_m23_nonzero",
              "only_m33_not_1"], g))
+        for k in range(4):
+            chk.oblige("corr:transform:overload-hit:%d" % k, "coverage", g[3 + k] > 0, {"compared_lines": g[3 + k]})
         for need, nm in ((g[7], "empty"), (g[8], "infinite"), (g[9], "affine"), (g[10], "projective"),
                          (g[11], "affine-test-term-m[0][3]-alone-fails"), (g[12], "affine-test-term-m[1][3]-alone-fails"),
                          (g[13], "affine-test-term-m[2][3]-alone-fails"), (g[14], "affine-test-term-m[3][3]-alone-fails")):
